@@ -534,7 +534,7 @@ PROPS = {
         },
         "analyze": analyze_generic,
         "oracles": ["total", "analysisExact", "dotFaithful", "mermaidFaithful"],
-        "probes": [],
+        "probes": ["resultsIndependent"],
         "rule": ("random compiled spec graphs (the engine generator: <=5 nodes + optional error node, native and ECMAScript actions, "
                  "guards, missing, empty and @variable targets, nil and empty branch lists, unreachable nodes); Analyze, Dot and Mermaid "
                  "run on the compiled spec; analysis fields compared as sets/counts, rendered node declarations and edges parsed back "
